@@ -169,7 +169,14 @@ class Setup:
                 # transactions keep arriving while the miner works on this head (before the next candidate is requested)
                 c["pool_additions_while_mining"] = c.get("pool_additions_while_mining", 0) + self.fill_pool(self.rng.choice([1, 1, 2]))
             mw.send_queues[0].items.clear()
-            quiet(mw.handle_request_scrypt_input_message, 0, nonce)
+            try:
+                quiet(mw.handle_request_scrypt_input_message, 0, nonce)
+            except Exception as e:
+                head, pool = cm.get_state()
+                mon.v("miner-cannot-assemble-candidate", "the miner's front end raised %r while assembling a candidate from the "
+                      "served head (height %d) and the %d pending transactions" % (e, head.head().height, len(pool)),
+                      dict(w_base, chain=gen.blocks_hex(world, world.chain.order[1:]), assembling=True))
+                return False
             kind, (summary, height) = mw.send_queues[0].items[-1]
             summary_hash = cons.construct_summary_hash(summary, height)
             s2, h2, txs = mw.mining_args[0]
